@@ -163,6 +163,20 @@ impl Prop for C02 {
                 }
             }
         }
+        // A1b (thorough): every selected-protocol value of the low 16 bits, NLA on and off (the values above 255 are not only
+        // "sampled" then), and every value whose low 16 bits are an acceptable selection with one more bit set above them
+        if tier == Tier::Thorough {
+            for use_nla in [true, false] {
+                for v in 256..=0xFFFFu32 {
+                    cs.push(Case { use_nla, selected: v, block: "selected-value-16-bits", ..base.clone() });
+                }
+                for low in [1u32, 2, 3] {
+                    for b in 16..32 {
+                        cs.push(Case { use_nla, selected: low | (1u32 << b), block: "selected-value-16-bits", ..base.clone() });
+                    }
+                }
+            }
+        }
         // A2: one write call refused by the transport at several points of the conversation (request, ClientHello, key
         // exchange, first application record, later); judged alone and, in the pair block, followed by another case
         for use_nla in [true, false] {
@@ -294,7 +308,7 @@ impl Prop for C02 {
         json!({"idx": idx, "case": self.cases[idx as usize]})
     }
     fn rule(&self) -> String {
-        "cases = (connector configuration | offered mask, server certificate, connection-confirm contents). [selected-value] all 256 low-byte values, every single bit 2^8..2^31 and mixed patterns x NLA on/off x certificate checking on/off; [reply-kind] failure / echoed request / absent / every other type byte x 6 values; [flags] every flag byte x valid and invalid selection; [length-field]; [offered-mask] x224::Client::connect with masks {0,1,2,3,8,0xB} and masks holding bits no protocol uses, in the low and in the high word (4, 0x10, 0x100, 0x10000, 0x10001, 0x10003, 0x80000000, 0xFFFF0000, 0xFFFFFFF4) x 10 selections x 3 kinds; [offered-mask-no-provider] the same without an authentication provider; [selected-value-x-mode] 7 selections under restricted admin / blank credentials / hash logon; [mode-x-flags-x-selection] 4 logon modes x NLA on/off x reply flag bytes {0x08, 0x01, 0x09, 0x1F, 0xFF} x selections {0,1,2,8,0xA}; the negotiation request on the wire must offer exactly the configured protocols; [write-refused] one write call refused by the transport at 11 byte positions from the request to the application records, NLA on and off: whatever was written obeys the same rules, and (pair block) so does the connection that follows in the same process; [connector-reuse] a Connector that served one / two refused attempts or a complete connection under another configuration (or one refused attempt under the same) and was re-configured, or that completed a connection under a configuration differing only in certificate checking / only in use_nla / only in the logon flags after which only those setters were called again, x NLA x checking (untrusted certificate when on) x selections {0,1,2,8}; [two-upgrades] every ordered pair of {start_ssl, start_nla} x {checking on, off} on one transport against an untrusted, an expired and a trusted certificate; [certificate] trusted RSA, trusted EC, a leaf of a trusted root; and six kinds of untrusted certificate: unknown self-signed, trusted-but-expired, trusted-but-not-yet-valid, leaf of an unknown root, leaf naming the trusted root but signed by another key, trusted certificate with a flipped signature bit; x checking x NLA x logon mode (plain, restricted admin, blank credentials, NT hash) and x the six orders of the Connector builder calls. Executed through the real Connector::connect over real TLS. Non-trivial: the reply is not the honest one for the configuration.".into()
+        "cases = (connector configuration | offered mask, server certificate, connection-confirm contents). [selected-value] all 256 low-byte values, every single bit 2^8..2^31 and mixed patterns x NLA on/off x certificate checking on/off (thorough: every value 0..65535, and the acceptable selections with one bit above bit 15); [reply-kind] failure / echoed request / absent / every other type byte x 6 values; [flags] every flag byte x valid and invalid selection; [length-field]; [offered-mask] x224::Client::connect with masks {0,1,2,3,8,0xB} and masks holding bits no protocol uses, in the low and in the high word (4, 0x10, 0x100, 0x10000, 0x10001, 0x10003, 0x80000000, 0xFFFF0000, 0xFFFFFFF4) x 10 selections x 3 kinds; [offered-mask-no-provider] the same without an authentication provider; [selected-value-x-mode] 7 selections under restricted admin / blank credentials / hash logon; [mode-x-flags-x-selection] 4 logon modes x NLA on/off x reply flag bytes {0x08, 0x01, 0x09, 0x1F, 0xFF} x selections {0,1,2,8,0xA}; the negotiation request on the wire must offer exactly the configured protocols; [write-refused] one write call refused by the transport at 11 byte positions from the request to the application records, NLA on and off: whatever was written obeys the same rules, and (pair block) so does the connection that follows in the same process; [connector-reuse] a Connector that served one / two refused attempts or a complete connection under another configuration (or one refused attempt under the same) and was re-configured, or that completed a connection under a configuration differing only in certificate checking / only in use_nla / only in the logon flags after which only those setters were called again, x NLA x checking (untrusted certificate when on) x selections {0,1,2,8}; [two-upgrades] every ordered pair of {start_ssl, start_nla} x {checking on, off} on one transport against an untrusted, an expired and a trusted certificate; [certificate] trusted RSA, trusted EC, a leaf of a trusted root; and six kinds of untrusted certificate: unknown self-signed, trusted-but-expired, trusted-but-not-yet-valid, leaf of an unknown root, leaf naming the trusted root but signed by another key, trusted certificate with a flipped signature bit; x checking x NLA x logon mode (plain, restricted admin, blank credentials, NT hash) and x the six orders of the Connector builder calls. Executed through the real Connector::connect over real TLS. Non-trivial: the reply is not the honest one for the configuration.".into()
     }
     fn assumptions(&self) -> Vec<String> {
         vec![
